@@ -2,7 +2,7 @@
 From Coq Require Import List NArith ZArith Bool Lia.
 From LTV Require Import Common.Bytes Params_gen.
 From LTV.C07 Require Import Model.
-From LTV.C08 Require Import Model ProofsOrder ProofsLoad ProofsTok.
+From LTV.C08 Require Import Model ProofsOrder ProofsLoad ProofsTok ProofsDecode ProofsTotal.
 Import ListNotations.
 Local Open Scope N_scope.
 
@@ -272,6 +272,69 @@ Proof. intros b u d Hl. destruct (load_inv _ _ _ Hl) as (_ & _ & _ & _ & _ & _ &
 
 End Main.
 
+(* ------------------------------------------------------------ the loader on BYTES: the real
+   decoder (C07) composed with the loader. The int64 hypothesis disappears (every decoded tree
+   has int64 integers) and the unordered flag is the per-dictionary one. *)
+Section Bytes.
+Variable H : bytes -> bytes.
+
+Lemma load_bytes_inv : forall s d, load_bytes H s = Some (LOk d) ->
+  exists b rest, decode_f s = Ok b rest /\ load H (erase b) (info_flag b) = LOk d /\ int64_ok (erase b) = true.
+Proof.
+  intros s d Hl. unfold load_bytes in Hl.
+  destruct (decode_f s) as [b rest| | |] eqn:E; try discriminate.
+  injection Hl as Hl. exists b, rest. repeat split; auto. eapply decode_f_int64. exact E.
+Qed.
+
+Theorem piece_count_matches_bytes : forall s d,
+  load_bytes H s = Some (LOk d) ->
+  d_chunk_size d <> 0 /\ d_size d < two63 /\
+  d_chunks d = (d_size d + d_chunk_size d - 1) / d_chunk_size d /\
+  d_chunks d < two32 /\
+  N.of_nat (length (d_pieces d)) = 20 * d_chunks d.
+Proof.
+  intros s d Hl. destruct (load_bytes_inv _ _ Hl) as (b & rest & _ & Hload & Hi).
+  eapply piece_count_matches; eassumption.
+Qed.
+
+Theorem sizes_sum_bytes : forall s d,
+  load_bytes H s = Some (LOk d) ->
+  offsets_from 0 (d_files d) /\ sum_size (d_files d) = d_size d /\ d_size d < two63 /\
+  (d_meta d = false -> d_size d <> 0).
+Proof.
+  intros s d Hl. destruct (load_bytes_inv _ _ Hl) as (b & rest & _ & Hload & Hi).
+  destruct (sizes_sum H _ _ _ Hload) as (A & B & C & D). auto.
+Qed.
+
+(* an info dictionary that is unordered ANYWHERE inside (its own keys, or any dictionary nested
+   in it at any depth) is rejected *)
+Theorem unordered_rejected_bytes : forall s m u rest im iu d,
+  decode_f s = Ok (FMap m u) rest ->
+  flookup k_info m = Some (FMap im iu) ->
+  any_flag (FMap im iu) = true ->
+  load_bytes H s <> Some (LOk d).
+Proof.
+  intros s m u rest im iu d Hd Hk Hany Hl.
+  unfold load_bytes in Hl. rewrite Hd in Hl. injection Hl as Hl.
+  assert (Hc : fclosed (FMap im iu) = true).
+  { eapply closed_flookup; [eapply decode_f_closed; exact Hd | exact Hk]. }
+  rewrite (closed_any_flag _ Hc) in Hany. simpl in Hany. subst iu.
+  unfold info_flag in Hl. rewrite Hk in Hl.
+  eapply (unordered_rejected H (erase (FMap m u)) d (emap m)); [reflexivity | | exact Hl].
+  unfold has_key_map. rewrite lookup_emap, Hk. reflexivity.
+Qed.
+
+(* nothing outside "info" matters: the loader sees the erased tree and info's own flag only (by
+   definition of load_bytes); and the loader on bytes is total *)
+Theorem load_total_bytes : forall s r,
+  load_bytes H s = Some r -> (exists d, r = LOk d) \/ r = LErr EInput \/ r = LErr EBencode.
+Proof.
+  intros s r Hl. unfold load_bytes in Hl. destruct (decode_f s) as [b rest| | |]; try discriminate.
+  injection Hl as <-. destruct (ProofsTotal.load_total_cases H (erase b) (info_flag b)) as [[d E]|[E|E]]; rewrite E; eauto.
+Qed.
+
+End Bytes.
+
 (* ------------------------------------------------------------ regression witnesses: the inputs
    that refuted piece_count_matches / load_total before the fix commits are now rejected with an
    input error. H0 stands for SHA-1 in these closed computations. *)
@@ -309,6 +372,15 @@ Example ex_prefix_rejected : load H0 (mk_multi [(10%Z, [[97];[98]]); (1%Z, [[122
 Proof. vm_compute. reflexivity. Qed.
 Example ex_unordered_rejected : load H0 (mk_single 100 2048 (repeat 17 20)) true = LErr EInput.
 Proof. vm_compute. reflexivity. Qed.
+(* d 8:announce 1:x 4:info d ... e e with the top-level keys swapped (info before announce): loads *)
+Definition bytes_of_single : bytes :=
+  [100; 52;58;105;110;102;111; 100; 54;58;108;101;110;103;116;104; 105;49;48;48;101; 52;58;110;97;109;101; 49;58;120;
+   49;50;58;112;105;101;99;101;32;108;101;110;103;116;104; 105;50;48;52;56;101; 54;58;112;105;101;99;101;115; 50;48;58] ++ repeat 17 20 ++ [101;
+   49;58;97; 105;49;101; 101].
+Example ex_outside_unordered_loads : exists d, load_bytes H0 bytes_of_single = Some (LOk d) /\
+  (exists b r, decode_f bytes_of_single = Ok b r /\ fflag b = true /\ info_flag b = false).
+Proof. eexists. split; [vm_compute; reflexivity|]. eexists. eexists. split; [vm_compute; reflexivity|]. split; reflexivity. Qed.
+
 Example ex_has_info : has_info (mk_single 100 2048 (repeat 17 20)).
 Proof. eexists. split; reflexivity. Qed.
 
